@@ -31,6 +31,28 @@ Example C19_nonvacuous :
   player_move PRunning 12 v = Some (MvFold, 12) /\ player_move PSuspended 12 v = Some (MvFold, 0).
 Proof. vm_compute. auto. Qed.
 
+(* "or the player is suspended": who is suspended.  For every history of status calls and time-outs:
+   a player who has been resumed is running - the next request waits the whole thinking time - whatever happened before;
+   only Suspend, or a second time-out in a row while idle, suspends; a running player is never suspended by time-outs *)
+Theorem C19_resumed_player_is_running : forall evs s, fst (rstep (fold_left rstep evs s) RResume) = PRunning.
+Proof.
+  intros evs s. generalize (fold_left rstep evs s). intros [st c]. destruct st; reflexivity.
+Qed.
+Print Assumptions C19_resumed_player_is_running.
+
+Theorem C19_timeouts_never_suspend_a_running_player : forall n s, fst s = PRunning -> fst (fold_left rstep (repeat RTimeout n) s) = PRunning.
+Proof.
+  induction n as [|n IH]; intros s H; cbn [repeat fold_left]; [exact H|]. apply IH. unfold rstep. rewrite H. exact H.
+Qed.
+Print Assumptions C19_timeouts_never_suspend_a_running_player.
+
+Example C19_status_machine :
+  fold_left rstep [RIdle; RTimeout] (PRunning, 0%nat) = (PIdle, 1%nat)
+  /\ fold_left rstep [RIdle; RTimeout; RTimeout] (PRunning, 0%nat) = (PSuspended, 2%nat)
+  /\ fold_left rstep [RIdle; RTimeout; RResume; RTimeout; RTimeout] (PRunning, 0%nat) = (PRunning, 0%nat)
+  /\ fold_left rstep [RSuspend; RResume] (PRunning, 0%nat) = (PRunning, 0%nat).
+Proof. vm_compute. auto. Qed.
+
 (* the sources have the shape the model was written after (regenerated from actor/*.go on every run) *)
 Theorem C19_sources_have_the_modelled_shape : player_ok = true.
 Proof. exact player_ok_holds. Qed.
